@@ -4,6 +4,7 @@ import (
 	"context"
 	"fmt"
 	"math/rand"
+	"runtime"
 	"sync"
 	"sync/atomic"
 	"time"
@@ -163,6 +164,58 @@ func RunConc(seed int64, senders, perSender int, withBroker bool) []Mismatch {
 	for o := range accepted {
 		if count[o] != 1 {
 			bad([]string{"C11"}, "an accepted event was handed to composition a wrong number of times", 1, fmt.Sprintf("event %d: %d times", o, count[o]))
+		}
+	}
+	return mms
+}
+
+// FirstUse: several callers hand a fresh filter its very first events at the same moment (the filter initialises
+// itself lazily inside Process). Gated.tla: every accepted event is handed to composition exactly once - here by the
+// FlushAll that follows.
+func FirstUse(seed int64, rounds int) []Mismatch {
+	var mms []Mismatch
+	const callers = 8
+	for i := 0; i < rounds && len(mms) < 3; i++ {
+		cc := &cctrl{}
+		f := &gated.Filter{Broker: &csender{}, Expiration: time.Hour}
+		var done sync.WaitGroup
+		var ready atomic.Int64
+		var goFlag atomic.Bool // spin barrier: the callers are running on their cores when they are let go
+		accepted := make([]bool, callers)
+		for k := 0; k < callers; k++ {
+			done.Add(1)
+			go func(k int) {
+				defer done.Done()
+				e := &eventlogger.Event{Type: "t", Payload: &cpay{ID: fmt.Sprintf("first-%d", k%5), Ord: k + 1, cc: cc}, Formatted: map[string][]byte{}}
+				ready.Add(1)
+				for !goFlag.Load() {
+				}
+				out, err := f.Process(context.Background(), e)
+				accepted[k] = err == nil && out == nil
+			}(k)
+		}
+		for ready.Load() < callers {
+			runtime.Gosched()
+		}
+		goFlag.Store(true)
+		done.Wait()
+		if err := f.FlushAll(context.Background()); err != nil {
+			mms = append(mms, Mismatch{Props: []string{"C17"}, What: "FlushAll after concurrent first use", Expected: nil, Observed: err.Error()})
+			continue
+		}
+		count := map[int]int{}
+		cc.mu.Lock()
+		for _, c := range cc.comps {
+			for _, o := range c {
+				count[o]++
+			}
+		}
+		cc.mu.Unlock()
+		for k := 0; k < callers; k++ {
+			if accepted[k] && count[k+1] != 1 {
+				mms = append(mms, Mismatch{Props: []string{"C11"}, What: "an event accepted during the concurrent first use of a fresh filter was handed to composition a wrong number of times", Expected: 1, Observed: fmt.Sprintf("event %d: %d times (round %d)", k+1, count[k+1], i)})
+				break
+			}
 		}
 	}
 	return mms
